@@ -16,8 +16,8 @@ LEVEL = 'exploration'
 LEVEL_TEXT = ('seeded exploration of encode histories through the public write_struct dispatch (15 codes, boundary values of every '
               'range / length prefix, DTIME x time zones x microseconds) in cold, warm-colliding (equal-but-distinct keys encoded '
               'first: 0.0/-0.0, 1/1.0/True, equal instants in other zones, str/enum) and flooded cache states; stateless decode')
-LEVEL_NOTE = ('trusted: sim/rp66.py value decoders (golden vectors in selftest oracle); OBNAME/OBJREF are exercised through attributes '
-              'of written files in C05/C07 (they need live objects); flood runs (~1 s each) only in the thorough tier')
+LEVEL_NOTE = ('trusted: sim/rp66.py value decoders (golden vectors in selftest oracle); OBNAME/OBJREF need live objects: a tenth of the cases '
+              'probes object identities before and after renames, re-pointed origins and writes; also covered by C05/C07; flood runs (~1 s each) only in the thorough tier')
 TIERS = {'quick': {'cases': 8000, 'wall': 40}, 'thorough': {'cases': 400000, 'wall': 780}}
 RULE = ('case = seeded sequence of 4-40 write_struct calls in one process (a prefix of colliding keys, then the probes); '
         'non-trivial = the probe value was preceded by an equal-but-distinct key or DTIME ran under a non-UTC zone; distinct = digest')
@@ -92,7 +92,94 @@ def collider(rng, code, lit):
     return None
 
 
+def identity_case(rng):
+    """OBNAME / OBJREF need live objects: identities (origin reference around the UVARI boundaries, copy numbers from repeated
+    names, names up to the IDENT limit) probed before and after renames, re-pointed origins and writes of the file."""
+    spec = gen.Spec(rng)
+    spec.new_file(mrl=8192)
+    lfi = spec.logical_file()
+    spec.origin(lfi)
+    refs = [0, 1, 127, 128, 16383, 16384, 2 ** 30 - 1, rng.randint(0, 2 ** 30 - 1)]
+    names = ['N', 'N', 'A' * 255, 'LONG-' + 'X' * rng.randint(100, 250), 'Z-%d' % rng.randint(0, 9)]
+    hs = []
+    ops = list(spec.ops)
+    ops.append({'op': 'add', 'lf': lfi['lf'], 'kind': 'channel', 'h': 'idc', 'name': 'C0', 'c': 0,
+                'kwargs': {'data': {'$arr': {'dtype': '<f8', 'shape': [3], 'kind': 'ramp', 'start': 1, 'step': 1}}}})
+    ops.append({'op': 'add', 'lf': lfi['lf'], 'kind': 'frame', 'h': 'idf', 'name': 'F0', 'c': 0,
+                'kwargs': {'channels': [{'$ref': 'idc'}]}})
+    hs += [('idc', 'channel'), ('idf', 'frame')]
+    for k in range(rng.choice([2, 3, 5])):
+        kind = rng.choice(['zone', 'axis', 'tool', 'equipment', 'parameter'])
+        h = 'id%d' % k
+        kw = {'origin_reference': gen.pick(rng, refs)} if rng.random() < 0.7 else {}
+        ops.append({'op': 'add', 'lf': lfi['lf'], 'kind': kind, 'h': h, 'name': gen.pick(rng, names), 'kwargs': kw, 'c': 0})
+        hs.append((h, kind))
+    hist = list(ops)
+
+    def probes():
+        for h, _ in hs:
+            if rng.random() < 0.7:
+                hist.append({'op': 'item_id', 'h': h})
+    probes()
+    for _ in range(rng.choice([1, 2, 3])):
+        r = rng.random()
+        h, kind = gen.pick(rng, hs)
+        if r < 0.4:
+            hist.append({'op': 'set_prop', 'h': h, 'prop': 'name', 'v': gen.pick(rng, names + ['R' * 256, 'RENAMED'])})
+        elif r < 0.75:
+            hist.append({'op': 'set_prop', 'h': h, 'prop': 'origin_reference', 'v': gen.pick(rng, refs + [2 ** 30, -1])})
+        else:
+            hist.append(gen.write_op(spec, path='id.dlis'))
+        probes()
+    return {'scenario': {'env': {'tz': 'UTC'}, 'history': hist}, 'params': {'kind': 'identity'}}
+
+
+def check_identity(case, ex):
+    hist = case['scenario']['history']
+    stats = C.new_stats(case)
+    out = []
+    sc, res = C.run(case, ex, [], stats)
+    changed = set()
+    written = False
+    for op, st in zip(hist, res['steps']):
+        if st is None:
+            continue
+        if op.get('op') == 'set_prop' and st.get('out') == 'ok':
+            changed.add(op['h'])
+        if op.get('op') == 'write' and st.get('out') == 'ok':
+            written = True
+        if op.get('op') != 'item_id':
+            continue
+        fp = {'code': 'OBNAME', 'identity_changed': op['h'] in changed, 'after_write': written}
+        if op['h'] in changed:
+            stats['nontrivial'] = True
+        if st.get('out') != 'ok':
+            # an identity the code cannot represent (origin >= 2**30, name longer than 255) may be rejected here
+            C.bump(stats['probes'], 'identity_probe_raised')
+            continue
+        want = st['props']
+        for route, code in (('own', 23), ('obname', 23), ('objref', 24)):
+            raw = bytes.fromhex(st[route])
+            try:
+                c = rp66.Cur(raw)
+                v, _ = rp66.rd_value(code, c)
+                used = c.p
+            except Exception as e:
+                out.append(C.V('C06.undecodable', dict(fp, route=route), bytes=st[route][:80], err=repr(e)))
+                continue
+            got = list(v[-3:]) if code == 24 else list(v)
+            if used != len(raw):
+                out.append(C.V('C06.length_mismatch', dict(fp, route=route), used=used, emitted=len(raw)))
+            elif got != list(want):
+                out.append(C.V('C06.decode_mismatch', dict(fp, route=route), want=want, got=got))
+            C.bump(stats['probes'], 'code_' + ('OBJREF' if code == 24 else 'OBNAME'))
+    stats['state_sigs'].append('identity|%d|%s' % (len(changed), written))
+    return {'violations': out, 'stats': stats}
+
+
 def gen_case(rng, tier, avoid):
+    if rng.random() < 0.1:
+        return identity_case(rng)
     tz = gen.pick(rng, gen.TZS)
     hist = []
     probes = []
@@ -135,6 +222,8 @@ def decode(code, raw):
 
 
 def check_case(case, ex):
+    if case.get('params', {}).get('kind') == 'identity':
+        return check_identity(case, ex)
     hist = case['scenario']['history']
     tz = case['scenario']['env'].get('tz')
     stats = C.new_stats(case)
